@@ -187,11 +187,24 @@ class SQLDataStore(datastore.DataStore):
     dtq = dtq.where(self._trials_table.c.owner_id == study_resource.owner_id)
     dtq = dtq.where(self._trials_table.c.study_id == study_resource.study_id)
 
+    # Delete operations queries. Operations belong to the study as well.
+    operation_queries = []
+    for table in (
+        self._suggestion_operations_table,
+        self._early_stopping_operations_table,
+    ):
+      doq = table.delete()
+      doq = doq.where(table.c.owner_id == study_resource.owner_id)
+      doq = doq.where(table.c.study_id == study_resource.study_id)
+      operation_queries.append(doq)
+
     with self._lock:
       if not self._connection.execute(eq).fetchone()[0]:
         raise NotFoundError('Study %s does not exist.' % study_name)
       self._write_or_rollback(dsq)
       self._write_or_rollback(dtq)
+      for doq in operation_queries:
+        self._write_or_rollback(doq)
       self._connection.commit()
 
   def list_studies(self, owner_name: str) -> List[study_pb2.Study]:
